@@ -241,6 +241,44 @@ def model_line(sc, fixed):
         1 if fixed else 0, cap, RESP_OVH, CMD_OVH, pre, files, ''.join(dplan), ''.join(gplan))
 
 
+def listing_fault_family(run, binary, tmp):
+    """A directory that cannot be listed (here: its path is longer than PATH_MAX, which also stops root) on the source or on the
+    destination side, local or behind a remote doer: the listing fails in the middle of the walk.  The run must hand control back with a
+    non-zero status - the walker's other threads, the doer's listing loop and the boss's wait for both listings must all come to an end."""
+    fake = e2e.fake_ssh_dir(tmp)
+    for side in ('src', 'dest'):
+        for place in ('LL', 'RL', 'LR'):
+            root = tempfile.mkdtemp(prefix='lf_', dir=tmp)
+            try:
+                for d in ('s', 'd'):
+                    os.makedirs(os.path.join(root, d, 'ok'))
+                    for i in range(30):
+                        open(os.path.join(root, d, 'ok', 'f%d' % i), 'w').write('x')
+                bad_root = os.path.join(root, 's' if side == 'src' else 'd')
+                cur = os.open(bad_root, os.O_RDONLY)
+                try:
+                    for i in range(24):
+                        os.mkdir('d' * 200, dir_fd=cur)
+                        nxt = os.open('d' * 200, os.O_RDONLY, dir_fd=cur)
+                        os.close(cur)
+                        cur = nxt
+                finally:
+                    os.close(cur)
+                args = [('localhost:' if place[0] == 'R' else '') + os.path.join(root, 's') + '/', ('localhost:' if place[1] == 'R' else '') + os.path.join(root, 'd') + '/']
+                r = e2e.run_cli(binary, args, fake_ssh=fake if 'R' in place else None, timeout=40)
+                run.count('listing-fault:%s:%s:exit:%s' % (side, place, 'hang' if r['timed_out'] else r['exit']))
+                run.case(('listing-fault', side, place), True, sample={'unlistable_dir_on': side, 'placement': place, 'exit': r['exit']})
+                run.traces_validated += 1
+                if r['timed_out']:
+                    run.fail('C09 oracle: a directory on the %s side (%s) could not be listed and the run did not hand control back within the watchdog (40 s): hang' % (side, place),
+                             {'family': 'listing-fault', 'side': side, 'placement': place})
+                elif r['exit'] == 0:
+                    run.fail('C09 oracle: a directory on the %s side (%s) could not be listed and the run exited 0' % (side, place),
+                             {'family': 'listing-fault', 'side': side, 'placement': place, 'text': (r['stdout'] + r['stderr'])[-300:]})
+            finally:
+                shutil.rmtree(root, ignore_errors=True)
+
+
 def check(run, only=None):
     run.trusted = list(vlib.COMMON_TRUSTED) + [
         'modelled, not verified: crossbeam channel (FIFO, disconnect on drop), std::thread join/panic semantics, TCP and the kernel socket buffers, ssh',
@@ -317,6 +355,7 @@ def check(run, only=None):
         #     cut at every position, error replies, doer dying during launch; the fake ssh logs the doer's exit status
         if only is None and nfail < MAX_FAIL:
             RS.family(run, binary, jremote, tmp)
+            listing_fault_family(run, binary, tmp)        # (7) a directory that cannot be listed, on either side, local or remote
     finally:
         shutil.rmtree(tmp, ignore_errors=True)
     run.extra['e2e_wall_s'] = round(time.time() - t0, 1)
